@@ -25,6 +25,7 @@ func init() {
 			"R4": "claim-set unit: go (tracked) of a closure calling the refresh loop, dominated by the claim Store(true), under the election mutex; every return of the loop: ctx.Done() case | claim false | a may-demote call precedes it in its block",
 			"R5": "see C15-R3",
 			"R6": "see C08-R2/R3",
+			"R8": "the refresh loop's ticker period is cfg.HeartbeatInterval",
 			"R7": "from the ticker case every path to the next tick passes the goroutine issuing the refresh, an increment of a failure counter (loop-carried +1 or the health counter's Add), or a may-demote call",
 		},
 	})
@@ -436,6 +437,9 @@ func checkC03(c *Ctx) {
 		}
 	}
 
+	// ---- R8 ---------------------------------------------------------------------
+	refreshPeriodRule(c, "R8")
+
 	// ---- R5 (shared) ----------------------------------------------------------------
 	natsConflictRule(c, "R5")
 }
@@ -483,4 +487,26 @@ func timeoutFormOK(got, H string) (bool, string) {
 		}
 	}
 	return false, want
+}
+
+// refreshPeriodRule: the refresh loop's ticker period is cfg.HeartbeatInterval (C03-R8, shared as C07-R5).
+func refreshPeriodRule(c *Ctx, rule string) {
+	m := c.M
+	rf := m.refreshLoopFn()
+	if rf == nil {
+		c.undecided(rule, "refresh loop", nil, "not found")
+		return
+	}
+	H := m.cfgPath("HeartbeatInterval")
+	nTk := 0
+	eachInstr(rf, func(in ssa.Instruction) {
+		if call, ok := isCallTo(valueOf(in), "time.NewTicker"); ok {
+			nTk++
+			got := m.Sym.Of(call.Call.Args[0]).String()
+			c.check(got == H, rule, "refresh period is the heartbeat interval", call, "ticker period %s; required %s (TTL >= 3 x this interval is what validation guarantees: C16, C07-R3)", got, H)
+		}
+	})
+	if nTk != 1 {
+		c.undecided(rule, "refresh ticker", firstInstr(rf), "%d tickers in the refresh loop function, expected 1", nTk)
+	}
 }
